@@ -415,6 +415,38 @@ func countersStartAtZero(p *pw.Path) *pw.Event {
 
 // borrow runs rules of another property into a scratch report and transfers the selected obligations under a rule id of
 // the current property (used where one structural condition is a necessary condition of several properties).
+// borrowKinds runs a lender's rules and takes over only its violations of the given kinds (suffix match) as violations of rule; when
+// the lender ran and reported none of them, rule is discharged for construct — whatever else the lender found is its own business.
+func (c *Ctx) borrowKinds(from string, run func(), rule, construct string, lenderRules []string, kinds ...string) {
+	n, ran := 0, 0
+	c.borrow(from, run, func(o *coreObl) (string, bool) {
+		hit := false
+		for _, lr := range lenderRules {
+			if o.Rule == lr {
+				hit = true
+			}
+		}
+		if !hit {
+			return "", false
+		}
+		ran++
+		if o.Status == core.Violated {
+			for _, k := range kinds {
+				if strings.HasSuffix(o.What, k) {
+					n++
+					return rule, true
+				}
+			}
+		}
+		return "", false
+	})
+	if ran == 0 {
+		c.R.Unknown(rule, construct, "the lending rules "+strings.Join(lenderRules, ",")+" produced no obligation")
+	} else if n == 0 {
+		c.R.OK(rule, construct, fmt.Sprintf("none of %v reported by %s", kinds, strings.Join(lenderRules, ",")))
+	}
+}
+
 func (c *Ctx) borrow(from string, run func(), pick func(o *coreObl) (string, bool)) {
 	save := c.R
 	scratch := core.NewReport(from, c.Tier, 0)
